@@ -133,9 +133,8 @@ def energy_from_tof(*, tof: Variable, Ltotal: Variable) -> Variable:
     """
     c = _energy_constant(sc.units.meV, tof, Ltotal)
     length = as_float_type(Ltotal, tof)
-    return as_float_type(c * length**2, tof) / tof ** sc.scalar(
-        2, dtype=elem_dtype(tof)
-    )
+    # Square in floating point: an integer tof**2 overflows int64 above ~3e9 ticks.
+    return as_float_type(c * length**2, tof) / as_float_type(tof, tof) ** 2
 
 
 def _energy_transfer_t0(energy, tof, length):
